@@ -134,6 +134,16 @@ def check(run, prog, tier):
     with run.part("S8 send collectors"):
         queue_exactly_once(run, prog, tier, "S8")
 
+    # ------------------------------------------------------------------ S9 a restarted component is really running
+    # ("subscribed exactly when offered and running": a stale continuation of the previous run that marks the new one
+    # stopped makes the next stop() a no-op - the watcher stays subscribed, the offer is never withdrawn)
+    from .derived import lifecycle_owner
+    from ..util import Scan as _Scan
+    with run.part("S9 generation state"):
+        _sc = _Scan(prog)
+        for _cq in ("sd.ServiceSubscriber", "sd.ServiceInstance", "sd.ServiceDiscover"):
+            lifecycle_owner(run, prog, _sc, "S9", _cq)
+
     # ------------------------------------------------------------------ S7 start / stop of the stack reach every component
     e7 = engine(prog, NoInline())
     for mname, want in (("start", "start"), ("stop", "stop")):
